@@ -4,7 +4,7 @@
    its normal form by the translator); policies = Spec/Confinement.v. *)
 From Coq Require Import List String Bool.
 Import ListNotations.
-Require Import Registry GenHistory CallGraph GenCalls Dispatch Confinement ConfineLemmas.
+Require Import Registry GenHistory CallGraph GenCalls Dispatch Confinement ConfineLemmas ConfineSafe ConfineUnsafe ConfineC.
 Open Scope string_scope.
 
 (* KIND C01_safe_dispatch_closed : U *)
